@@ -373,6 +373,19 @@ def _alarm(signum, frame):
     raise RunTimeout()
 
 
+def apply_mem_cap():
+    """A run that allocates without bound (a parser loop that keeps appending) must end in MemoryError inside the
+    run, not take the machine down: the address space of every process that executes cases (chunk children,
+    replays, history replays) is capped, the same way, so that such a run ends the same way everywhere."""
+    try:
+        import resource
+
+        cap = int(os.environ.get("VERIF_MEM_CAP_GB", "3")) << 30
+        resource.setrlimit(resource.RLIMIT_AS, (cap, cap))
+    except Exception:
+        pass
+
+
 def run_case(mod, case, keep_trace=False, wall_limit=RUN_WALL_LIMIT):
     """Execute one case with the module's oracles. Never raises."""
     se = load_se()
@@ -483,15 +496,7 @@ def _chunk_body(args):
     modname, base, lo, hi, tier = args
     import gc
 
-    try:
-        # a run that allocates without bound (a parser loop that keeps appending) must end in MemoryError inside the
-        # run, not take the machine down: the address space of a chunk child is capped
-        import resource
-
-        cap = int(os.environ.get("VERIF_MEM_CAP_GB", "3")) << 30
-        resource.setrlimit(resource.RLIMIT_AS, (cap, cap))
-    except Exception:
-        pass
+    apply_mem_cap()
 
     gc.disable()
     mod = _import_check(modname)
